@@ -232,6 +232,12 @@ enum V {
     Text(&'static str),
     /// the per-encoding non-ASCII word
     Word,
+    /// the same text arriving through another kind of cell: a rich text of `runs` runs (split in the middle)
+    Rich(&'static str, usize),
+    /// a formula whose cached result is this text
+    FormulaText(&'static str),
+    /// auto-typed `set_value`
+    Auto(&'static str),
 }
 const SPECIALS: [(&str, V); 13] = [
     ("plain", V::Text("abc")),
@@ -326,6 +332,21 @@ fn specs() -> Vec<Spec> {
             v.push(Spec { kind: format!("removed:{:09b}-{},{}", m, xc, xr), sheets: vec![cells.clone()], active: 0, removed: vec![(xc, xr)] });
         }
     }
+    // (6) the text-bearing special values through the other kinds of cell that carry text (rich text of one and two
+    // runs, formula with a cached text result, auto-typed set_value), alone and beside a plain neighbour
+    for (name, val) in SPECIALS.iter() {
+        let V::Text(t) = val else { continue };
+        for (cname, carried) in [("rich1", V::Rich(t, 1)), ("rich2", V::Rich(t, 2)), ("formula-text", V::FormulaText(t)), ("auto", V::Auto(t))] {
+            for neighbours in [false, true] {
+                let mut cells = vec![(1, 1, carried.clone())];
+                if neighbours {
+                    cells.push((2, 1, V::Pos));
+                    cells.push((1, 2, carried.clone()));
+                }
+                v.push(Spec { kind: format!("carrier:{}:{}:{}", cname, name, if neighbours { "beside" } else { "alone" }), sheets: vec![cells], active: 0, removed: vec![] });
+            }
+        }
+    }
     // (4) active sheet is not the first one / not the last one
     let target = vec![(1, 1, V::Pos), (3, 2, V::Text("abc")), (2, 3, V::Pos)];
     let decoy_big = vec![(1, 1, V::Text("decoy")), (4, 4, V::Text("decoy"))];
@@ -342,7 +363,7 @@ fn value_text(v: &V, c: u32, r: u32, enc: Enc) -> String {
         V::Pos => format!("r{}c{}", r, c),
         V::Num(x) => x.to_string(),
         V::Bool(b) => if *b { "TRUE".into() } else { "FALSE".into() },
-        V::Text(t) => t.to_string(),
+        V::Text(t) | V::Rich(t, _) | V::FormulaText(t) | V::Auto(t) => t.to_string(),
         V::Word => enc.word().to_string(),
     }
 }
@@ -361,6 +382,29 @@ fn build(spec: &Spec, enc: Enc) -> umya_spreadsheet::Spreadsheet {
                 }
                 V::Bool(b) => {
                     cell.set_value_bool(*b);
+                }
+                V::Rich(t, runs) => {
+                    let mut rt = umya_spreadsheet::RichText::default();
+                    let cut = if *runs < 2 { t.len() } else { t.char_indices().nth(t.chars().count() / 2).map(|(i, _)| i).unwrap_or(0) };
+                    for (k, part) in [&t[..cut], &t[cut..]].iter().enumerate() {
+                        if k == 1 && *runs < 2 {
+                            continue;
+                        }
+                        let mut e = umya_spreadsheet::TextElement::default();
+                        e.set_text(*part);
+                        if k == 1 {
+                            e.get_font_mut().set_bold(true);
+                        }
+                        rt.add_rich_text_elements(e);
+                    }
+                    cell.set_rich_text(rt);
+                }
+                V::FormulaText(t) => {
+                    cell.set_formula("A9&\"\"");
+                    cell.set_formula_result_default(*t);
+                }
+                V::Auto(t) => {
+                    cell.set_value(*t);
                 }
                 _ => {
                     cell.set_value_string(value_text(v, *c, *r, enc));
